@@ -10,7 +10,7 @@ from __future__ import annotations
 import itertools
 
 from rt import gen, hooks
-from rt.jp_oracle import check_query_case
+from rt.jp_oracle import check_query_case, equivalent_envs
 from rt.render import Renderer
 
 ID = "C01"
@@ -146,7 +146,12 @@ def run(spec, ctx):
                     if text in seen:
                         continue
                     seen.add(text)
-                    check_case(ctx, ast, doc, text, "random")
+                    if r.random() < 0.25:
+                        name, env = r.choice(equivalent_envs())
+                        check_query_case(ctx, ast, doc, text, "random:" + name, env=env)
+                        ctx.cell("configurations", name)
+                    else:
+                        check_case(ctx, ast, doc, text, "random")
     for k, v in hooks.STATE.sel_matrix.items():
         ctx.cell("H1_selector_x_kind", "|".join(k), v)
     ctx.count("H2_matches_checked", hooks.STATE.h2_checked)
